@@ -1,7 +1,10 @@
 #!/bin/bash
 # debug helper: run a .v file through coqtop and show the goal state before the first error
-f="$1"; n="${2:-40}"
-timeout 600 coqtop -Q /verif/coq GmsmVerif < "$f" 2>&1 | awk -v n="$n" '
+# usage: ./cq.sh File.v [context-lines] [timeout-seconds]
+f="$1"; n="${2:-40}"; t="${3:-600}"
+out=$(timeout "$t" coqtop -Q /verif/coq GmsmVerif < "$f" 2>&1); rc=$?
+if [ $rc -eq 124 ]; then echo "TIMEOUT after ${t}s (coqtop killed: some tactic or Qed does not terminate in time) - last output:"; echo "$out" | tail -n 15; exit 124; fi
+echo "$out" | awk -v n="$n" '
  { buf[NR]=$0 }
  /^Error|Error:/ && !found { found=NR }
  END { if (!found) { print "NO ERROR"; exit } s=found-n; if (s<1) s=1; for(i=s;i<=found+6&&i<=NR;i++) print buf[i] }'
